@@ -8,6 +8,7 @@ import (
 
 	"github.com/luno/workflow/internal/graph"
 	"github.com/luno/workflow/internal/metrics"
+	"github.com/luno/workflow/internal/util"
 )
 
 type (
@@ -46,6 +47,7 @@ func newUpdater[Type any, Status StatusType](
 			UpdatedAt:    clock.Now(),
 			Meta:         record.Meta,
 		}
+		updatedRecord.Meta.StatusDescription = util.CamelCaseToSpacing(next.String())
 
 		latest, err := lookup(ctx, updatedRecord.RunID)
 		if err != nil {
